@@ -269,3 +269,25 @@ def unicode_case(rng):
     if k == 10:
         return "TYPE %s : INT; END_TYPE (* %s *) %s" % (pad or "T", blob, blob)
     return head + "x := 1;\n(* %s\n %s *) x := '%s' + ;\nEND_PROGRAM" % (blob[:30], blob[:40], blob)
+
+
+TAILS = ["// Autor: René", "(* geprüft: Jörg Müß *)", "// 日本", "(* € *)", "é", "// xé", "(* unterminated é", "'é",
+         "// ok", "(* ascii *)", "// €", "éé", "// 🙂", "(* 🙂 *)", "//é", "// é\r"]
+
+
+def tail(rng, wide=True):
+    """What real files end with: a trailing comment or stray character whose LAST character is not ASCII, with no line
+    break after it (the file's last bytes are then a multi-byte sequence, or an incomplete one in another encoding)."""
+    pool = TAILS if wide else [t for t in TAILS if all(ord(c) < 256 or c == "€" for c in t)]
+    return rng.choice(pool)
+
+
+def truncate_with_tail(text, rng, wide=True):
+    """The document while it is being typed: cut off at a token boundary somewhere in its second half (or not at all),
+    then a tail() without a final line break."""
+    toks = lex(text)
+    if len(toks) > 4 and rng.random() < 0.7:
+        k = rng.randrange(len(toks) // 2, len(toks))
+        text = "".join(toks[:k])
+    sep = rng.choice(["\n", " ", "\n\n", ""])
+    return text.rstrip("\n") + sep + tail(rng, wide)
